@@ -18,7 +18,9 @@ import (
 )
 
 func init() {
-	Registry["C01"] = &Oracle{Run: runC01, Lines: linesMsg(checkRoundTrip, nil)}
+	Registry["C01"] = &Oracle{Run: runC01, Lines: func(lines []string, rep *Reporter) {
+		linesMsg(checkRoundTrip, nil)(append(derivedFieldLines(lines), lines...), rep)
+	}}
 	Registry["C02"] = &Oracle{Run: runC02, Lines: linesC02}
 	Registry["C08"] = &Oracle{Run: runC08, Lines: linesC08}
 	Registry["C19"] = &Oracle{Run: runC19, Lines: linesMsg(checkAttribution, checkErrorPath)}
